@@ -614,7 +614,69 @@ def walk_tree(tree, preds, cons):
     for q in preds:
         if q[0] == p[0] and q[1] == p[1]:
             return walk_tree(a if q[2] == p[2] else b, preds, cons)
+    if p[0] == 'lt':
+        # the code may have split three ways (`x.cmp(&y)`): decide x < y from what its recorded conditions say about
+        # the order of the same two terms
+        x, y = p[1]
+        om = {'lt', 'eq', 'gt'}
+        used = False
+        for q in preds:
+            sat = None
+            if q[0] == 'lt' and q[1] == (x, y):
+                sat = {'lt'}
+            elif q[0] == 'lt' and q[1] == (y, x):
+                sat = {'gt'}
+            elif q[0] == 'eq' and q[1] == frozenset([frozenset([('term', x), ('term', y)])]):
+                sat = {'eq'}
+            if sat is not None:
+                used = True
+                om &= sat if q[2] else ({'lt', 'eq', 'gt'} - sat)
+        if used and om:
+            holds = om <= {'lt'}
+            fails = not (om & {'lt'})
+            if holds or fails:
+                return walk_tree(a if (holds == p[2]) else b, preds, cons)
     return walk_tree(a, preds, cons) + walk_tree(b, preds, cons)
+
+
+def elapsed_vs_timeout(preds):
+    """what the recorded branch conditions of a path say about `elapsed(arrival) < timeout`:
+    -> (True | False | None, elapsed term, timeout term).  The conditions may be a single comparison in any spelling or
+    the arms of a three-way `cmp`."""
+    e = t = None
+    om = {'lt', 'eq', 'gt'}
+    used = False
+    for q in preds:
+        pair = None
+        if q[0] == 'lt':
+            pair = q[1]
+        elif q[0] == 'eq' and len(q[1]) == 1:
+            only = list(list(q[1])[0])
+            if len(only) == 2 and all(x[0] == 'term' for x in only):
+                pair = (only[0][1], only[1][1])
+        if pair is None:
+            continue
+        el = [x for x in pair if x[0] == 'app' and x[1] == 'elapsed']
+        if len(el) != 1:
+            continue
+        e2 = el[0]
+        t2 = pair[1] if pair[0] == e2 else pair[0]
+        if e is not None and (e2, t2) != (e, t):
+            return None, e, t
+        e, t = e2, t2
+        if q[0] == 'lt':
+            sat = {'lt'} if pair == (e, t) else {'gt'}
+        else:
+            sat = {'eq'}
+        used = True
+        om &= sat if q[2] else ({'lt', 'eq', 'gt'} - sat)
+    if not used or not om:
+        return None, e, t
+    if om <= {'lt'}:
+        return True, e, t
+    if not (om & {'lt'}):
+        return False, e, t
+    return None, e, t
 
 
 EXPLORE_SECONDS = 40.0      # CPU-time budget of one channel's exploration; exceeding it fails closed
